@@ -527,6 +527,31 @@ int main(int argc, char **argv)
     ALTER("MplexEntry::SetPeriod(str)", "n_mplex", MplexEntry, e->SetPeriod("n_const"), (G.scalar[1] = strdup("n_const"), G.scalar_ind[1] = -1));
     ALTER("RawEntry::SetSamplesPerFrame(str)", "n_raw", RawEntry, e->SetSamplesPerFrame("n_carray<2>", 0), (G.scalar[0] = strdup("n_carray"), G.scalar_ind[0] = 2));
     ALTER("SBitEntry::SetFirstBit(str)", "sbit", SBitEntry, e->SetFirstBit("n_carray<0>"), (G.scalar[0] = strdup("n_carray"), G.scalar_ind[0] = 0));
+    /* the remaining CONST / CARRAY<n> forms of the string overloads */
+    ALTER("LincomEntry::SetOffset(str const)", "n_lincom", LincomEntry, e->SetOffset("n_const", 1), (free(G.scalar[GD_MAX_LINCOM + 1]), G.scalar[GD_MAX_LINCOM + 1] = strdup("n_const"), G.scalar_ind[GD_MAX_LINCOM + 1] = -1));
+    ALTER("RecipEntry::SetDividend(str const)", "n_recip", RecipEntry, e->SetDividend("n_const"), (free(G.scalar[0]), G.scalar[0] = strdup("n_const"), G.scalar_ind[0] = -1));
+    ALTER("MplexEntry::SetCountVal(str const)", "n_mplex", MplexEntry, e->SetCountVal("n_const"), (free(G.scalar[0]), G.scalar[0] = strdup("n_const"), G.scalar_ind[0] = -1));
+    ALTER("MplexEntry::SetPeriod(str elem)", "n_mplex", MplexEntry, e->SetPeriod("n_carray<4>"), (free(G.scalar[1]), G.scalar[1] = strdup("n_carray"), G.scalar_ind[1] = 4));
+    ALTER("RawEntry::SetSamplesPerFrame(str const)", "n_raw", RawEntry, e->SetSamplesPerFrame("n_const", 0), (free(G.scalar[0]), G.scalar[0] = strdup("n_const"), G.scalar_ind[0] = -1));
+    ALTER("BitEntry::SetFirstBit(str elem)", "n_bit", BitEntry, e->SetFirstBit("n_carray<2>"), (free(G.scalar[0]), G.scalar[0] = strdup("n_carray"), G.scalar_ind[0] = 2));
+    ALTER("PhaseEntry::SetShift(str elem 4)", "n_phase", PhaseEntry, e->SetShift("n_carray<4>"), (free(G.scalar[0]), G.scalar[0] = strdup("n_carray"), G.scalar_ind[0] = 4));
+    /* WINDOW: the threshold is an integer, a bit mask or a double depending on the operator: a new entry for each of the
+     * eight operators, then the numeric and the string (CONST and CARRAY element) overloads of SetThreshold */
+    {
+      static const gd_windop_t ops[8] = { GD_WINDOP_EQ, GD_WINDOP_NE, GD_WINDOP_GE, GD_WINDOP_GT, GD_WINDOP_LE, GD_WINDOP_LT, GD_WINDOP_SET, GD_WINDOP_CLR };
+      for (int k = 0; k < 8; k++) {
+        S nm = S("n_w") + num(k);
+        gd_triplet_t th; memset(&th, 0, sizeof th);
+        if (ops[k] == GD_WINDOP_EQ || ops[k] == GD_WINDOP_NE) th.i = 3 + k; else if (ops[k] == GD_WINDOP_SET || ops[k] == GD_WINDOP_CLR) th.u = 5 + k; else th.r = 2.5 + k;
+        { WindowEntry e(nm.c_str(), in0, "n_mul", (WindOpType)ops[k], th, 0); CENT(GD_WINDOW_ENTRY); E.field = (char*)nm.c_str(); E.in_fields[0] = (char*)in0; E.in_fields[1] = (char*)"n_mul";
+          E.u.window.windop = ops[k]; E.u.window.threshold = th; ADD(S("WindowEntry op ") + num((int)ops[k]), e, nm.c_str()); }
+        { gd_triplet_t t2; memset(&t2, 0, sizeof t2);
+          if (ops[k] == GD_WINDOP_EQ || ops[k] == GD_WINDOP_NE) t2.i = -7; else if (ops[k] == GD_WINDOP_SET || ops[k] == GD_WINDOP_CLR) t2.u = 0x30; else t2.r = -0.75;
+          ALTER(S("WindowEntry::SetThreshold(numeric) op ") + num((int)ops[k]), nm.c_str(), WindowEntry, e->SetThreshold(t2), G.u.window.threshold = t2); }
+        ALTER(S("WindowEntry::SetThreshold(str const) op ") + num((int)ops[k]), nm.c_str(), WindowEntry, e->SetThreshold("n_const"), (G.scalar[0] = strdup("n_const"), G.scalar_ind[0] = -1));
+        ALTER(S("WindowEntry::SetThreshold(str elem) op ") + num((int)ops[k]), nm.c_str(), WindowEntry, e->SetThreshold("n_carray<3>"), (free(G.scalar[0]), G.scalar[0] = strdup("n_carray"), G.scalar_ind[0] = 3));
+      }
+    }
     ALTER("MultiplyEntry::SetInput", "n_mul", MultiplyEntry, e->SetInput("n_phase", 1), (free(G.in_fields[1]), G.in_fields[1] = strdup("n_phase")));
     ALTER("DivideEntry::SetInput", "n_div", DivideEntry, e->SetInput("n_phase", 0), (free(G.in_fields[0]), G.in_fields[0] = strdup("n_phase")));
     ALTER("ConstEntry::SetType", "n_const", ConstEntry, e->SetType(Int64), G.u.scalar.const_type = GD_INT64);
